@@ -33,8 +33,8 @@ ASSUMPTIONS = [
 ]
 RESP = ['Module', 'Redirect', 'External', 'NotFound', 'ChecksumError', 'OtherError']     # External doubles as Cached for ensure_cached
 
-def cubes(tier, has_fc): return [{'asset': False}, {'asset': True}]
-def cube_name(c): return 'try_load_asset' if c['asset'] else 'try_load_module'
+def cubes(tier, has_fc): return [{'asset': a, 'from': f} for f in ('try_load', 'pending') for a in (False, True)]
+def cube_name(c): return ('load_pending_' if c.get('from') == 'pending' else 'try_load_') + ('asset' if c['asset'] else 'module')
 
 def build(mir, cube):
     sym = Sym()
@@ -43,13 +43,21 @@ def build(mir, cube):
     eng.cfg['N'] = 3; eng.cfg['scheme'] = [sym.bv(f'scheme{u}', 8, lt=len(SCHEMES)) for u in range(3)]
     is_asset = z3.BoolVal(cube['asset'])
     is_root, in_dyn, was_dyn_root, cfg_imports = sym.bool('is_root'), sym.bool('in_dynamic_branch'), sym.bool('was_dynamic_root'), sym.bool('unstable_config_imports')
-    has_ck = sym.bool('checksum_known_on_entry'); has_vi = sym.bool('version_info_embedded'); has_vfut = sym.bool('registry_url_manifest_pending')
+    pending = cube.get('from') == 'pending'
+    has_vi = sym.bool('version_info_embedded')
+    if pending:
+        # start one level up, at Builder::load_pending_module: the checksum comes from the queued item or else from the lockfile,
+        # and a manifest load is pending exactly for an https URL into the registry without embedded version info
+        item_ck, has_locker, locker_has, registry_url = sym.bool('item_carries_checksum'), sym.bool('has_locker'), sym.bool('lockfile_has_checksum'), sym.bool('url_points_into_registry')
+        has_ck = z3.Or(item_ck, z3.And(has_locker, locker_has)); has_vfut = z3.And(z3.Not(has_vi), registry_url)
+    else:
+        has_ck = sym.bool('checksum_known_on_entry'); has_vfut = sym.bool('registry_url_manifest_pending')
     vfut_ok, sub_listed, manifest_ck_ok = sym.bool('manifest_load_ok'), sym.bool('manifest_covers_file'), sym.bool('manifest_checksum_usable')
     rc = sym.bv('redirect_count', 8); maxr = sym.bv('max_redirects', 8)
     has_range, has_spr, has_attr = sym.bool('has_range'), sym.bool('has_source_phase_referrer'), sym.bool('has_attribute')
     resp = [sym.bv(f'loader_answer_{i}', 8, lt=len(RESP)) for i in range(2)]
     parse_ok = sym.bool('parse_ok')
-    CK_ENTRY, CK_MANIFEST = 1, 2
+    CK_ENTRY, CK_MANIFEST, CK_LOCK = 1, 2, 3
     LR, CR, LE, PIR = en['LoadResponse'], en['CacheResponse'], en['LoadError'], en['PendingInfoResponse']
     rng = Agg([{'specifier': UrlV(BV(0, 8))}.get(f, O) for f in st['Range']])
     vi_root = Root(opt(has_vi, Opaque('embedded version info')), 'version_info')
@@ -115,7 +123,7 @@ def build(mir, cube):
         (re.compile(r'<SharedLocal<.*> as .*Future>::poll'), stub_poll_vfut),
         (re.compile(r'<\{async fn body of .*handle_success\(\)\} as .*Future>::poll'), stub_poll_parse),
         (re.compile(r'(.*::)?handle_success'), stub_handle_success),
-        (re.compile(r'<.* as .*IntoFuture>::into_future'), ident), (re.compile(r'Pin::<&mut .*>::new_unchecked'), ident),
+        (re.compile(r'<.* as .*IntoFuture>::into_future'), ident), (re.compile(r'Pin::<&mut .*>::new_unchecked'), lambda e, c, a, g: Agg([a[0]])),
         (re.compile(r'<dyn .*JsrUrlProvider as .*JsrUrlProvider>::package_url'), lambda e, c, a, g: UrlV(BV(2, 8))),
         (re.compile(r'JsrPackageVersionInfoExt::get_subpath'), lambda e, c, a, g: opt(sub_listed, ref_to(SymStr('sub path'), 'sub'))),
         (re.compile(r'JsrPackageVersionInfoExt::get_checksum'), stub_get_checksum),
@@ -137,9 +145,39 @@ def build(mir, cube):
             'is_asset': is_asset, 'in_dynamic_branch': in_dyn, 'was_dynamic_root': was_dyn_root, 'loader': Opaque('loader'), 'jsr_url_provider': Opaque('jsr url provider'),
             'module_analyzer': Opaque('analyzer'), 'unstable_config_imports': cfg_imports}
     for n, i in dbg.items(): up[int(i)] = vals[n]
-    coro = CoroV(BV(0, 8), {}, up)
-    poll = eng.call(fname, [Agg([ref_to(coro, 'try_load')]), Opaque('task context')], TRUE)
-    ready_ = poll.is_variant(0); res = poll.vars[0].f[0]
+    slots_after = None
+    if not pending:
+        coro = CoroV(BV(0, 8), {}, up)
+        poll = eng.call(fname, [Agg([ref_to(coro, 'try_load')]), Opaque('task context')], TRUE)
+        ready_ = poll.is_variant(0); res = poll.vars[0].f[0]
+    else:
+        queued = []
+        def stub_push(e, c, a, g): queued.append((g, a[1])); return UNIT
+        eng.cfg['stubs'] += [
+            (re.compile(r'<dyn .*JsrUrlProvider as .*JsrUrlProvider>::package_url_to_nv'), lambda e, c, a, g: opt(registry_url, Opaque('package nv'))),
+            (re.compile(r'Builder::<.*>::queue_load_package_version_info'), lambda e, c, a, g: UNIT),
+            (re.compile(r'<Rc<JsrMetadataStore> as Deref>::deref'), ident),
+            (re.compile(r'.*JsrMetadataStore::get_package_version_metadata'), lambda e, c, a, g: opt(TRUE, Opaque('manifest future'))),
+            (re.compile(r'<dyn .*Locker as .*Locker>::get_remote_checksum'), lambda e, c, a, g: opt(locker_has, Agg([BV(CK_LOCK, 8)]))),
+            (re.compile(r'<\{async block@.*\} as FutureExt>::boxed_local.*'), ident),
+            (re.compile(r'FuturesOrdered::<.*>::push_back'), stub_push),
+        ]
+        slots = Root(Agg([{'module_slots': MapModel.empty(3)}.get(f, O) for f in st['ModuleGraph']]), 'graph')
+        item = Agg([{'redirect_count': rc, 'requested_specifier': UrlV(BV(0, 8)), 'maybe_attribute_type': vals['maybe_attribute_type'], 'maybe_range': opt(has_range, rng),
+                     'maybe_source_phase_referrer': opt(has_spr, rng), 'load_specifier': UrlV(BV(0, 8)), 'in_dynamic_branch': in_dyn, 'is_asset': is_asset, 'is_root': is_root,
+                     'maybe_checksum': opt(item_ck, Agg([BV(CK_ENTRY, 8)])), 'maybe_version_info': opt(has_vi, Opaque('embedded version info'))}[f] for f in st['PendingModuleLoadItem']])
+        builder = Agg([{'graph': Ptr([(TRUE, (slots, ()))]), 'loader': Opaque('loader'), 'module_analyzer': Opaque('analyzer'), 'jsr_url_provider': Opaque('jsr url provider'),
+                        'was_dynamic_root': was_dyn_root, 'unstable_config_imports': cfg_imports, 'locker': opt(has_locker, ref_to(Opaque('locker'), 'locker')),
+                        'state': Agg([O] * len(st['PendingState']))}.get(f, O) for f in st['Builder']])
+        broot = Root(builder, 'builder')
+        eng.call(mir.find('Builder', 'load_pending_module'), [Ptr([(TRUE, (broot, ()))]), item], TRUE)
+        if len(queued) != 1 or not isinstance(queued[0][1], CoroV): raise Unsupported(f'load_pending_module queued {len(queued)} futures: {[(str(g)[:60], type(v).__name__) for g, v in queued]}')
+        fut = queued[0][1]
+        span = re.match(r'\{coroutine@(.*?) \(#\d+\)\}', fut.span).group(1)
+        poll = eng.dispatch('<{async block@' + span + '} as Future>::poll', [Agg([ref_to(fut, 'queued-future')]), Opaque('task context')], TRUE, None)
+        ready_ = poll.is_variant(0)
+        res = poll.vars[0].f[0].f[st['PendingInfo'].index('result')]
+        slots_after = slots.val.f[st['ModuleGraph'].index('module_slots')]
     is_ok, is_err = AND(ready_, res.is_variant(0)), AND(ready_, res.is_variant(1))
     okv = res.vars[0].f[0] if 0 in res.vars and res.vars[0].f else EnumV(BV(0, 8), {})
     errk = res.vars[1].f[0] if 1 in res.vars and res.vars[1].f else None
@@ -172,7 +210,8 @@ def build(mir, cube):
     # the checksum known when the loader is asked
     manifest_applies = z3.And(has_vfut, vfut_ok, sub_listed, manifest_ck_ok)
     known = z3.Or(has_ck, manifest_applies)
-    known_tok = z3.If(manifest_applies, z3.BitVecVal(CK_MANIFEST, 8), z3.BitVecVal(CK_ENTRY, 8))
+    entry_tok = z3.If(item_ck, z3.BitVecVal(CK_ENTRY, 8), z3.BitVecVal(CK_LOCK, 8)) if pending else z3.BitVecVal(CK_ENTRY, 8)
+    known_tok = z3.If(manifest_applies, z3.BitVecVal(CK_MANIFEST, 8), entry_tok)
     vi_after = z3.Or(has_vi, z3.And(has_vfut, vfut_ok))      # version info present when the loader is asked
     CS = en['CacheSetting']
     def wrong_ck(c): return z3.And(c[0], z3.Or(c[4] != known, z3.And(known, c[5] != known_tok)))
@@ -196,7 +235,7 @@ def build(mir, cube):
                 return {'calls': seen, 'result': 'err:' + d}
             return {'calls': seen, 'result': 'module' if ev(m, okModule) else 'redirect' if ev(m, okRedirect) else 'external'}
     # natively rebuildable through a real build: a plain https module (no registry, no embedded version info), first hop, default redirect limit
-    real = [parse_ok, z3.Not(has_vi), z3.Not(has_vfut), rc == 0, maxr == 10, has_range, z3.Not(has_spr), z3.Not(has_attr) if not cube['asset'] else has_attr, z3.Not(is_root), z3.Not(was_dyn_root), z3.Not(in_dyn)]
+    real = ([z3.Not(item_ck), has_locker, z3.Not(registry_url)] if pending else []) + [parse_ok, z3.Not(has_vi), z3.Not(has_vfut), rc == 0, maxr == 10, has_range, z3.Not(has_spr), z3.Not(has_attr) if not cube['asset'] else has_attr, z3.Not(is_root), z3.Not(was_dyn_root), z3.Not(in_dyn)]
     kw = dict(ops=[Op()], world=W(), realizable=real)
     if cube.get('op_only'): return eng, W(), [], [Query('op', FALSE, **kw)]
     qs = [Query('no-panic', Or(g for _, g in eng.panics)), Query('first-poll-completes', z3.Not(ready_))]
@@ -223,6 +262,12 @@ def build(mir, cube):
         qs.append(Query('a-module-is-parsed-from-exactly-the-content-the-accepted-load-delivered',
                         Or(z3.And(pg, z3.Not(z3.Or(z3.And(g1, A(r0, 'Module'), cid == 10, z3.Not(g2)), z3.And(g2, A(r1, 'Module'), cid == 11)))) for pg, cid, _ in parses), **kw))
         qs.append(Query('witness-retry-delivers-a-module', z3.And(after_integrity, okModule), expect='sat', kind='witness', **kw))
+    if pending:
+        qs.append(Query('exactly-one-load-future-is-queued-per-request', z3.Not(queued[0][0])))
+        P = en['ModuleSlot'].index('Pending')
+        sv = slots_after.vals[0]
+        qs.append(Query('the-requested-specifier-is-marked-pending-with-the-asset-flag', z3.Not(z3.And(slots_after.present[0], sv.tag == P, sv.vars[P].f[0] == is_asset)) if isinstance(sv, EnumV) else z3.BoolVal(True)))
+        qs.append(Query('witness-lockfile-checksum-reaches-the-loader', z3.And(z3.Not(item_ck), has_locker, locker_has, g1, first[5] == CK_LOCK), expect='sat', kind='witness', **kw))
     qs.append(Query('witness-integrity-error', z3.And(after_integrity, err_is('Load', 'HttpsChecksumIntegrity')), expect='sat', kind='witness', **kw))
     qs.append(Query('witness-checksummed-redirect-rejected', z3.And(redirected, known, z3.Not(vi_after), is_err), expect='sat', kind='witness', **kw))
     qs.append(Query('witness-manifest-checksum-used', z3.And(manifest_applies, g1), expect='sat', kind='witness'))
